@@ -1193,6 +1193,41 @@ func TestSysSunset(t *testing.T) {
 		f.violate("checkpoint-signed-after-stop", "the checkpoint file or the lock row changed while the read-only server ran")
 	}
 	p.interrupt(5 * time.Second)
+	// ---- read-only, started once more (the final metadata is on disk now) ----
+	p = f.start("P", "main", f.PeriodMs, "")
+	if !p.waitReady(90 * time.Second) {
+		if p.alive() {
+			p.kill()
+			r.Inconcl("second read-only start did not become ready within the watchdog")
+			return
+		}
+		f.violate("readonly-start-failed", "the server does not start a second time on a log past its read-only date: %s", p.logTail())
+		return
+	}
+	for i := 0; i < 4; i++ {
+		ch := mk()
+		if i%2 == 1 {
+			ch = acked[rng.Intn(len(acked))]
+		}
+		t0 := time.Now()
+		st, _ := f.submit(p, ch)
+		r.Eval(1)
+		r.DistinctKey(fmt.Sprintf("readonly-restarted/resubmission=%v/%d", i%2 == 1, st))
+		r.Count(fmt.Sprintf("sys_readonly_restarted_status_%d", st), 1)
+		if st == 200 {
+			f.violate("submission-accepted-after-stop", "a submission was answered 200 by a restarted server whose log is past its read-only date")
+		}
+		if st == 0 && p.alive() && time.Since(t0) > 12*time.Second {
+			// no sequencing is involved in refusing: an answer is due at once
+			f.violate("submitter-stranded-after-stop", "a submission to a read-only log got no answer for %v while the server process was alive", time.Since(t0).Round(time.Second))
+			break
+		}
+	}
+	cpAfter2, _ := os.ReadFile(filepath.Join(f.LogDir, "checkpoint"))
+	if !bytes.Equal(cpBefore, cpAfter2) {
+		f.violate("checkpoint-signed-after-stop", "the checkpoint file changed while the restarted read-only server ran")
+	}
+	p.interrupt(5 * time.Second)
 	if pub := f.observe(cpAfter, "published"); pub != nil {
 		if leaves := f.auditAt(pub, "published"); leaves != nil {
 			f.checkAcks(leaves, "published")
